@@ -25,6 +25,7 @@ type grammarInfo struct {
 	Escapes   map[byte]bool // characters admitted after a backslash in STRING
 	RawExcl   map[byte]bool // characters excluded from the raw alternative ~[...]
 	ValueAlts []string      // alternatives of the `value` rule
+	Rules     map[string]string
 	Err       string
 }
 
@@ -135,6 +136,10 @@ func readGrammar(path string) *grammarInfo {
 		}
 	} else {
 		g.Err = "escape alternative not found in STRING"
+	}
+	g.Rules = map[string]string{}
+	for _, n := range []string{"WS", "innerExprList", "root", "expr", "innerExpr", "fieldAccess"} {
+		g.Rules[n] = strings.Join(strings.Fields(rule(n)), " ")
 	}
 	val := rule("value")
 	for _, a := range strings.Split(val, "|") {
@@ -257,6 +262,30 @@ func checkC17(c *Ctx, r *Report) {
 	c.checkUnquoter(r, g)
 	c.checkAlternatives(r, g)
 	c.checkExprKeys(r)
+	// grammar-level clauses: whitespace is skipped, a trailing comma is optional, the whole input is one expression
+	var badG []string
+	ws := g.Rules["WS"]
+	if !strings.Contains(ws, "-> skip") {
+		badG = append(badG, "whitespace is not skipped (rule WS: `"+ws+"`)")
+	}
+	for _, ch := range []string{" ", "\\t", "\\r", "\\n"} {
+		if i, j := strings.Index(ws, "["), strings.Index(ws, "]"); i < 0 || j < i || !strings.Contains(ws[i:j], ch) {
+			badG = append(badG, fmt.Sprintf("whitespace class lacks %q", ch))
+		}
+	}
+	iel := strings.ReplaceAll(g.Rules["innerExprList"], " ", "")
+	if !strings.HasSuffix(iel, "','?") || !strings.Contains(iel, "(','innerExpr)*") || !strings.HasPrefix(iel, "innerExpr") {
+		badG = append(badG, "innerExprList is not `innerExpr (',' innerExpr)* ','?` (separating commas, optional trailing comma): `"+g.Rules["innerExprList"]+"`")
+	}
+	if f := strings.Fields(g.Rules["root"]); len(f) != 2 || f[0] != "expr" || f[1] != "EOF" {
+		badG = append(badG, "root is not `expr EOF` (the whole input must be one expression): `"+g.Rules["root"]+"`")
+	}
+	sort.Strings(badG)
+	if len(badG) > 0 {
+		r.Fail("C17.grammar:Expr.g4", "expr/Expr.g4", "%s", strings.Join(badG, "; "))
+	} else {
+		r.OK("C17.grammar:Expr.g4", "whitespace skipped, optional trailing comma, root = expr EOF, assignment = fieldAccess '=' value")
+	}
 }
 
 func (c *Ctx) checkRecover(r *Report, parse *ssa.Function) {
